@@ -126,6 +126,16 @@ Definition row_level (level : list nat) (i : nat) (cs : list nat) : nat :=
   fold_left (fun l c => Nat.max l (nth c level 0 + 1)) cs (nth i level 0).
 Definition compute_levels (deps : nat -> list nat) (order : list nat) (n : nat) : list nat :=
   fold_left (fun level i => updn level i (row_level level i (deps i))) order (repeat 0 n).
+(* the level loop of gauss_seidel::parallel_sweep after the anti-dependency fix
+   (/repo f214b60): after level[i] = l, every column c of the row that is swept LATER
+   gets level[c] = max(level[c], l+1) -- the row that writes x[c] has to wait for the
+   row that still reads the old x[c].  A column outside the array is a no-op here (out
+   of bounds in the C++; excluded for square matrices). *)
+Definition push_levels (level : list nat) (l : nat) (cs : list nat) : list nat :=
+  fold_left (fun lv c => updn lv c (Nat.max (nth c lv 0) (l + 1))) cs level.
+Definition compute_levels_push (deps push : nat -> list nat) (order : list nat) (n : nat) : list nat :=
+  fold_left (fun level i => let l := row_level level i (deps i) in
+                            push_levels (updn level i l) l (push i)) order (repeat 0 n).
 (* nlev = max(nlev, l+1) *)
 Definition nlev_of (level : list nat) : nat := fold_left (fun m l => Nat.max m (l + 1)) level 0.
 
@@ -229,12 +239,14 @@ Definition sched_valid (reads : nat -> list nat) (n : nat) (forward : bool) (sch
      (serial_before forward c i = true <-> level_in sch c < level_in sch i)).
 
 (* ------------------------------------------------------------------------------ *)
-(* Row-parallel loops: "#pragma omp parallel for" over rows whose body writes only
-   the row-owned output cell.  State = inputs ++ outputs is not needed: the body is a
-   function of the (read-only) input, so the loop is a [map]; the parallel form hands
-   contiguous chunks to the threads and every thread writes its own cells. *)
-Definition par_for_steps {V} (n : nat) (body : nat -> V) : list (step V) :=
-  map (fun i => mkStep [] i (fun _ => body i)) (seq 0 n).
+(* Row-parallel loops: "#pragma omp parallel for" over i whose body writes only the
+   iteration-owned cell i and reads, of the shared output, at most that cell (everything
+   else it reads is read-only input, i.e. part of [body]).  [its] assigns iterations to
+   threads (any schedule kind: static, dynamic, guided). *)
+Definition pf_step {V} (d : V) (body : nat -> V -> V) (i : nat) : step V :=
+  mkStep [i] i (fun st => body i (nth i st d)).
+Definition par_for_steps {V} (d : V) (body : nat -> V -> V) (its : list (list nat)) : list (list (step V)) :=
+  map (map (pf_step d body)) its.
 
 (* reductions: fold of a binary operation over per-thread partial results *)
 Definition reduce {X} (op : X -> X -> X) (e : X) (l : list X) : X := fold_left op l e.
